@@ -1092,6 +1092,298 @@ Proof.
     apply Inv_put_plain; [exact Hi|]. intros q [<-|[<-|[]]]; [exact Hbr|]. eapply first_parent_plain; eauto.
 Qed.
 
+(* ---------------------------------------------------------------- edit / rebase *)
+
+Lemma after_name_skipn : forall n l, exists k, after_name n l = skipn k l.
+Proof.
+  intros n. induction l as [|x r IH]; [exists O; reflexivity|]. cbn [after_name].
+  destruct (name_eqb x n); [exists 1%nat; reflexivity|]. destruct IH as [k IH]. exists (S k). exact IH.
+Qed.
+
+Lemma filter_mem_self : forall l, filter (fun n => mem n l) l = l.
+Proof. intros l. apply filter_all. intros x Hx. now apply mem_In. Qed.
+
+Lemma filter_negmem_self : forall l, filter (fun n => negb (mem n l)) l = [].
+Proof. intros l. apply filter_none. intros x Hx. apply negb_false_iff. now apply mem_In. Qed.
+
+(* popping exactly a suffix of the applied list *)
+Lemma pop_suffix : forall t k,
+  NoDup (t_applied t) ->
+  pop_patches (fun n => mem n (skipn k (t_applied t))) t =
+  (set_lists t (firstn k (t_applied t)) (skipn k (t_applied t) ++ t_unapplied t) (t_hidden t), []).
+Proof.
+  intros t k Hd. unfold pop_patches. rewrite (split_at_first_skipn _ k Hd).
+  now rewrite filter_negmem_self, filter_mem_self.
+Qed.
+
+Definition edit_popped (t : txn) (k : nat) : txn :=
+  set_lists t (firstn k (t_applied t)) (skipn k (t_applied t) ++ t_unapplied t) (t_hidden t).
+
+Lemma edit_pop_facts : forall pn t,
+  wf_txn t ->
+  exists k,
+    after_name pn (t_applied t) = skipn k (t_applied t)
+    /\ pop_patches (fun n => mem n (skipn k (t_applied t))) t = (edit_popped t k, [])
+    /\ wf_txn (edit_popped t k)
+    /\ NoDup (skipn k (t_applied t))
+    /\ (forall n, In n (skipn k (t_applied t)) ->
+          In n (t_all (edit_popped t k)) /\ ~ In n (t_applied (edit_popped t k))).
+Proof.
+  intros pn t W.
+  pose proof (names_disjoint t (wt_names t W)) as [Hda _].
+  destruct (after_name_skipn pn (t_applied t)) as [k Hk]. exists k.
+  split; [exact Hk|]. split; [apply (pop_suffix t k Hda)|].
+  destruct (NoDup_firstn_skipn _ k _ Hda) as [_ [Hds Hdis]].
+  split; [|split; [exact Hds|]].
+  - apply wf_txn_lists; [exact W|]. unfold t_all. rewrite <- app_assoc, app_assoc.
+    now rewrite firstn_skipn.
+  - intros n Hn. split.
+    + apply in_all_cases. right. left. cbn. apply in_or_app. now left.
+    + cbn. intros Hf. exact (Hdis n Hf Hn).
+Qed.
+
+Lemma edit_closure : forall pn o t,
+  wf_txn t -> is_patch_commit (t_objs t) o ->
+  good (let above := after_name pn (t_applied t) in
+        let '(t1, extra) := pop_patches (fun n => mem n above) t in
+        match extra with
+        | _ :: _ => TPanic
+        | [] => tbind (update_patch pn o t1) (push_patches above false)
+        end).
+Proof.
+  intros pn o t W Ho. cbv zeta.
+  destruct (edit_pop_facts pn t W) as (k & -> & -> & W1 & Hds & Hin).
+  pose proof (update_patch_wf pn o (edit_popped t k) W1 Ho) as Hu. unfold update_patch in *.
+  destruct (t_patch (edit_popped t k) pn); [|exact I]. cbn [tbind]. cbn [good res_sat] in Hu.
+  eapply res_sat_impl; [apply push_patches_wf; [exact Hu|exact Hds|exact Hin]|intros t' P; apply P].
+Qed.
+
+Lemma patch_commit_copy' : forall objs pc old m sj,
+  is_patch_commit objs pc -> get objs pc = Some old ->
+  is_patch_commit (objs ++ [plain (c_parents old) (c_tree old) m sj]) (length objs).
+Proof.
+  intros objs pc old m sj H E. pose proof (patch_commit_copy objs pc (c_tree old) m sj H) as H'.
+  unfold parents_of in H'. now rewrite E in H'.
+Qed.
+
+Lemma run_edit_inv : forall w l m msg, Inv w -> Inv (fst (run_edit w l m msg)).
+Proof.
+  intros w l m msg Hi. unfold run_edit.
+  destruct (match l with Some o => _ | None => _ end) as [loc_l|]; [|exact Hi].
+  destruct (open_stack PAllow w) as [op|] eqn:Eo; [apply (open_ok _ _ _ Hi) in Eo|exact Hi].
+  destruct (negb (head_top_ok op)); [inv_leaf|].
+  match goal with |- Inv (fst (rres_bind _ ?r _)) => destruct r as [pn| |]; cbn [rres_bind]; [|inv_leaf|inv_leaf] end.
+  destruct (pm_get (s_patches (op_state op)) pn) as [pc|] eqn:Epc; [|inv_leaf].
+  destruct (get (w_objs (op_world op)) pc) as [old|] eqn:Eg; [|inv_leaf].
+  destruct (_ && _); [inv_leaf|].
+  unfold put. cbv beta iota zeta.
+  pose proof Eo as [Hiw [[_ [_ [_ [Hp _]]]] _]]. apply Inv_iff in Hiw as [[Hcl _] _].
+  apply Hp in Epc.
+  apply transact_inv.
+  - apply op_ok_put; [exact Eo|]. intros p Hin. apply (patch_parents_plain _ pc Hcl Epc).
+    unfold parents_of. now rewrite Eg.
+  - intros W. apply edit_closure; [exact W|]. eapply patch_commit_copy'; eassumption.
+  - apply frame_edit_body.
+Qed.
+
+(* ---- what a successful transaction leaves behind ---- *)
+
+Lemma exec_co_not_X0 : forall t th w1 st1 wt um x,
+  exec_co t th w1 st1 = inr (wt, um, x) -> x <> X0.
+Proof.
+  intros t th w1 st1 wt um x H. unfold exec_co in H.
+  destruct (o_set_head (t_opts t) && o_use_iw (t_opts t)); [|discriminate].
+  destruct (negb _ && negb _ && negb _); [injection H as _ _ <-; discriminate|].
+  destruct (checkout _ _ _ _ _ _ _) as [[a b]|]; [discriminate|].
+  destruct (checkout _ _ _ _ _ _ _) as [[a b]|]; [injection H as _ _ <-; discriminate|].
+  destruct (tree_eqb _ _); injection H as _ _ <-; discriminate.
+Qed.
+
+Lemma exec_body_extends : forall w t halted msg,
+  store_extends (w_objs w) (t_objs t) ->
+  store_extends (w_objs w) (w_objs (fst (exec_body w t halted msg))).
+Proof.
+  intros w t halted msg He. unfold exec_body.
+  destruct (negb _); [apply store_extends_refl|].
+  destruct (t_head_oid t) as [th|]; [|apply store_extends_refl].
+  destruct (exec_logged w t) as [[w1 st1]|] eqn:El; [|exact He].
+  assert (He1 : store_extends (w_objs w) (w_objs w1)).
+  { unfold exec_logged in El. destruct (Nat.eqb _ _); [injection El as <- _; exact He|].
+    unfold log_external_mods in El. destruct (w_stack _); [|discriminate].
+    destruct (state_commit _ _ _) as [[objs' so']|] eqn:Ec; [|discriminate].
+    injection El as <- _. apply state_commit_state in Ec as [Ec _]. cbn in *.
+    eapply store_extends_trans; [exact He|exact Ec]. }
+  destruct (exec_co t th w1 st1) as [[wt' um']|[[wt' um'] x]]; [|exact He1].
+  unfold exec_fin. destruct (w_stack w1); [|exact He1].
+  destruct (state_commit _ _ _) as [[objs' so]|] eqn:Ec; [|exact He1].
+  apply state_commit_state in Ec as [Ec _].
+  destruct halted; cbn; eapply store_extends_trans; eauto.
+Qed.
+
+Lemma transact_extends : forall op o f msg,
+  frame (begin_txn op o) (f (begin_txn op o)) ->
+  store_extends (w_objs (op_world op)) (w_objs (fst (transact op o f msg))).
+Proof.
+  intros op o f msg Hf. unfold transact. destruct (negb (op_initialized op)).
+  - destruct (f (begin_txn op o)); apply store_extends_refl.
+  - rewrite execute_eq. destruct (f (begin_txn op o)) as [t|t h|t|]; cbn [frame] in Hf.
+    + apply exec_body_extends. apply Hf.
+    + apply exec_body_extends. apply Hf.
+    + apply Hf.
+    + apply store_extends_refl.
+Qed.
+
+Lemma exec_body_X0_cur : forall w t halted msg w2,
+  exec_body w t halted msg = (w2, X0) ->
+  exists th prev st1, cur_state w2 = Some (exec_state t th prev st1) /\ halted = None.
+Proof.
+  intros w t halted msg w2 E. unfold exec_body in E.
+  destruct (negb _); [discriminate|].
+  destruct (t_head_oid t) as [th|]; [|discriminate].
+  destruct (exec_logged w t) as [[w1 st1]|]; [|discriminate].
+  destruct (exec_co t th w1 st1) as [[wt' um']|[[wt' um'] y]] eqn:Eco.
+  - unfold exec_fin in E. destruct (w_stack w1) as [prev|]; [|discriminate].
+    destruct (state_commit _ _ _) as [[objs' so]|] eqn:Ec; [|discriminate].
+    apply state_commit_state in Ec as [_ Ec].
+    destruct halted; [discriminate|]. injection E as <-.
+    exists th, prev, st1. split; [|reflexivity]. unfold cur_state. cbn. exact Ec.
+  - injection E as _ ->. exfalso. now apply exec_co_not_X0 in Eco.
+Qed.
+
+Lemma transact_X0_cur : forall op o f msg w2,
+  transact op o f msg = (w2, X0) ->
+  exists t' th prev st1,
+    f (begin_txn op o) = TOk t' /\ cur_state w2 = Some (exec_state t' th prev st1).
+Proof.
+  intros op o f msg w2 E. unfold transact in E. destruct (negb (op_initialized op)).
+  - destruct (f (begin_txn op o)); discriminate.
+  - rewrite execute_eq in E. destruct (f (begin_txn op o)) as [t|t h|t|]; try discriminate.
+    + apply exec_body_X0_cur in E as (th & prev & st1 & Hc & _). eauto 8.
+    + apply exec_body_X0_cur in E as (th & prev & st1 & _ & Hh). discriminate.
+Qed.
+
+Lemma open_state_cur : forall p w op s,
+  p <> PForce -> open_stack p w = Some op -> cur_state w = Some s -> op_state op = s.
+Proof.
+  intros p w op s Hp H Hc. unfold open_stack in H. unfold cur_state in Hc.
+  destruct (w_stack w) as [so|]; [|discriminate]. rewrite Hc in H.
+  destruct p; try discriminate; try (exfalso; now apply Hp);
+    destruct (stack_base _ _ s); try discriminate; now injection H as <-.
+Qed.
+
+Lemma log_extmods_first_lists : forall op0 op,
+  log_extmods_first op0 = Some op ->
+  s_applied (op_state op) = s_applied (op_state op0)
+  /\ s_unapplied (op_state op) = s_unapplied (op_state op0)
+  /\ s_hidden (op_state op) = s_hidden (op_state op0)
+  /\ s_patches (op_state op) = s_patches (op_state op0).
+Proof.
+  intros op0 op E. unfold log_extmods_first in E.
+  destruct (Nat.eqb _ _); [injection E as <-; auto|].
+  unfold log_external_mods in E. destruct (w_stack (op_world op0)) as [so|]; [|discriminate].
+  destruct (state_commit _ _ _) as [[objs' so']|]; [|discriminate].
+  injection E as <-. cbn. auto.
+Qed.
+
+(* the state recorded by the first (pop everything) transaction of rebase *)
+Lemma rebase_popped_state : forall op o w2,
+  transact op o (fun t => TOk (fst (pop_patches (fun n => mem n (s_applied (op_state op))) t))) MOp
+    = (w2, X0) ->
+  exists s2, cur_state w2 = Some s2 /\ s_applied s2 = []
+    /\ s_unapplied s2 = s_applied (op_state op) ++ s_unapplied (op_state op)
+    /\ s_hidden s2 = s_hidden (op_state op).
+Proof.
+  intros op o w2 E. apply transact_X0_cur in E as (t' & th & prev & st1 & Ef & Hc).
+  injection Ef as <-. eexists. split; [exact Hc|].
+  unfold pop_patches. change (t_applied (begin_txn op o)) with (s_applied (op_state op)).
+  assert (Es : split_at_first (fun n => mem n (s_applied (op_state op))) (s_applied (op_state op))
+               = ([], s_applied (op_state op))).
+  { unfold split_at_first. destruct (s_applied (op_state op)) as [|x r] eqn:Ea; [reflexivity|].
+    assert (Hm : mem x (x :: r) = true) by (apply mem_In; now left).
+    cbn [position]. rewrite Hm. reflexivity. }
+  rewrite Es. cbn. rewrite filter_negmem_self, filter_mem_self. auto.
+Qed.
+
+Lemma rebase_reopened : forall op o w2 target wt um op3 op4,
+  transact op o (fun t => TOk (fst (pop_patches (fun n => mem n (s_applied (op_state op))) t))) MOp
+    = (w2, X0) ->
+  open_stack PRequire (mkWorld (w_objs w2) target (w_stack w2) (w_prefs w2) wt um (w_base w2)) = Some op3 ->
+  log_extmods_first op3 = Some op4 ->
+  s_applied (op_state op4) = []
+  /\ s_unapplied (op_state op4) = s_applied (op_state op) ++ s_unapplied (op_state op)
+  /\ s_hidden (op_state op4) = s_hidden (op_state op).
+Proof.
+  intros op o w2 target wt um op3 op4 Etr Eo3 El.
+  apply rebase_popped_state in Etr as (s2 & Hc2 & Ha2 & Hu2 & Hh2).
+  assert (Es3 : op_state op3 = s2) by (eapply open_state_cur; [|exact Eo3|exact Hc2]; discriminate).
+  destruct (log_extmods_first_lists _ _ El) as [Ea4 [Eu4 [Eh4 _]]].
+  rewrite Ea4, Eu4, Eh4, Es3. auto.
+Qed.
+
+Lemma rebase_push_pre : forall op4 o applied unapplied,
+  s_applied (op_state op4) = [] -> s_unapplied (op_state op4) = applied ++ unapplied ->
+  forall n, In n applied -> In n (t_all (begin_txn op4 o)) /\ ~ In n (t_applied (begin_txn op4 o)).
+Proof.
+  intros op4 o applied unapplied Ea Eu n Hn. cbn. rewrite Ea, Eu. split; [|intros []].
+  cbn. apply in_or_app. left. apply in_or_app. now left.
+Qed.
+
+Lemma resolve_gtarget_plain : forall w tgt o,
+  Inv w -> resolve_gtarget w tgt = Some o -> is_plain (w_objs w) o.
+Proof.
+  intros w tgt o Hi E. apply Inv_iff in Hi as [[Hcl Hst] [Hbr Hsk]]. destruct tgt as [n|k|k]; cbn in E.
+  - destruct (cur_state w) as [s|] eqn:Es; [|discriminate]. unfold cur_state in Es.
+    destruct (w_stack w) as [so|]; [|discriminate]. apply Hst in Es as [_ [_ [_ [Hp _]]]].
+    now apply Hp in E as [E _].
+  - destruct (cur_state w) as [s|] eqn:Es; [|discriminate]. unfold cur_state in Es.
+    destruct (w_stack w) as [so|]; [|discriminate]. apply Hst in Es.
+    destruct (stack_base _ _ s) as [b|] eqn:Eb; [|discriminate].
+    eapply ancestor_plain; [exact Hcl| |exact E]. eapply stack_base_plain; eauto. split; assumption.
+  - eapply ancestor_plain; eauto.
+Qed.
+
+Lemma Inv_reset_hard : forall w o wt um,
+  Inv w -> is_plain (w_objs w) o -> Inv (mkWorld (w_objs w) o (w_stack w) (w_prefs w) wt um (w_base w)).
+Proof.
+  intros w o wt um Hi Ho. apply Inv_iff in Hi as [Hok [_ Hsk]]. apply Inv_mk.
+  split; [exact Hok|]. split; [exact Ho|exact Hsk].
+Qed.
+
+Lemma run_rebase_inv : forall w tg, Inv w -> Inv (fst (run_rebase w tg)).
+Proof.
+  intros w tg Hi. unfold run_rebase.
+  destruct (open_stack PRequire w) as [op|] eqn:Eo; [apply (open_ok _ _ _ Hi) in Eo|exact Hi].
+  destruct (resolve_gtarget (op_world op) tg) as [target|] eqn:Et; [|inv_leaf].
+  apply (resolve_gtarget_plain _ _ _ (proj1 Eo)) in Et.
+  destruct (Nat.eqb target (op_base op)); [inv_leaf|].
+  destruct (negb (head_top_ok op)); [inv_leaf|].
+  destruct (dirty (op_world op)); [inv_leaf|].
+  pose proof Eo as [_ [Hs _]]. destruct (state_lists _ _ Hs) as [Hda _].
+  match goal with |- context [transact ?o ?a ?f ?m] =>
+    assert (Hm : Inv (fst (transact o a f m))
+                 /\ store_extends (w_objs (op_world op)) (w_objs (fst (transact o a f m))));
+    [|destruct (transact o a f m) as [w2 x] eqn:Etr] end.
+  { split.
+    - apply transact_inv; [exact Eo| |cbn [frame]; apply fr_pop].
+      intros W. cbn [good res_sat].
+      destruct (pop_patches _ _) as [t1 inc] eqn:Ep. cbn [fst].
+      now apply (pop_wf _ _ _ _ W) in Ep as [W1 _].
+    - apply transact_extends. cbn [frame]. apply fr_pop. }
+  cbn [fst] in Hm. destruct Hm as [Hi2 He2]. destruct x; try exact Hi2.
+  pose proof (Inv_reset_hard w2 target (tree_of (w_objs w2) target) false Hi2
+                (is_plain_ext _ _ _ He2 Et)) as Hi3.
+  set (w3 := mkWorld _ _ _ _ _ _ _) in *.
+  destruct (open_stack PRequire w3) as [op3|] eqn:Eo3; [|exact Hi3].
+  destruct (log_extmods_first op3) as [op4|] eqn:El; [|apply (open_ok _ _ _ Hi3) in Eo3; inv_leaf].
+  destruct (rebase_reopened _ _ _ _ _ _ _ _ Etr Eo3 El) as [Ea4 [Eu4 _]].
+  apply (open_ok _ _ _ Hi3) in Eo3.
+  apply (log_extmods_first_ok _ _ Eo3) in El.
+  destruct (negb (head_top_ok op4)); [inv_leaf|].
+  apply transact_inv; [exact El| |apply frame_push_patches].
+  intros W. eapply res_sat_impl; [apply push_patches_wf; [exact W|exact Hda|]|intros t' P; apply P].
+  eapply rebase_push_pre; eassumption.
+Qed.
+
 (* ---------------------------------------------------------------- the theorems *)
 
 Theorem step_inv : forall lower_s, LowerOK lower_s ->
@@ -1119,6 +1411,8 @@ Proof.
   - destruct ranges; [discriminate|]. now apply run_reset_inv.
   - now apply run_repair_inv.
   - now apply run_log_clear_inv.
+  - now apply run_edit_inv.
+  - now apply run_rebase_inv.
   - destruct (open_stack PAllow w) as [op|] eqn:Eo; [|exact Hi]. now apply (open_ok _ _ _ Hi) in Eo as [H _].
   - now apply run_git_inv.
   - now apply run_git_inv.
